@@ -220,6 +220,78 @@ theorem renderFrame_window {W : World} {pos : σ → Nat} {good : σ → Prop} {
     injection h with h; injection h with _ h2
     exact h2.symm
 
+/-! ### frames that trickle in while the audio thread starves inside one `process` call are consumed unheard -/
+
+/-- what a decoder-loop iteration does to the ring (`produce_at`): one more entry at the back -/
+def pushEntry (s : Sys σ ℝ) (y : TimestampedFrame ℝ) : Sys σ ℝ :=
+  { s with ring := { s.ring with items := s.ring.items ++ [y] } }
+
+/-- frame-granular interleaving inside ONE `process` call (the `slots() < 2` test is made once, before the loop):
+    before each output frame the decoder thread delivers exactly one more entry -/
+noncomputable def trickle (fuel : Nat) (t dt : ℝ) : List (TimestampedFrame ℝ) → Sys σ ℝ → Except Fault (Sys σ ℝ × List (Frame ℝ))
+  | [], s => .ok (s, [])
+  | y :: ys, s =>
+    match (pushEntry s y).renderFrame fuel t dt with
+    | .error f => .error f
+    | .ok (s', out) =>
+      match trickle fuel t dt ys s' with
+      | .error f => .error f
+      | .ok (s'', outs) => .ok (s'', out :: outs)
+
+/-- the ring is empty, the fraction 0, the end not reached, unit step (`sample_rate · rate · dt = 1`) -/
+structure Starved (s : Sys σ ℝ) (dt : ℝ) : Prop where
+  empty : s.ring.items = []
+  frac : s.frac = 0
+  notEnd : s.reachedEnd = false
+  unit : ∀ t, s.fracStep t dt = 1
+
+theorem starved_frame (fuel : Nat) (hfuel : 2 ≤ fuel) (s : Sys σ ℝ) (t dt : ℝ) (h : Starved s dt)
+    (y : TimestampedFrame ℝ) :
+    ∃ s', (pushEntry s y).renderFrame fuel t dt = .ok (s', s.shade t Frame.zero) ∧ Starved s' dt ∧
+      (∀ t' f, s'.shade t' f = s.shade t' f) := by
+  have hf : (pushEntry s y).frac = 0 := h.frac
+  have hstep : (pushEntry s y).fracStep t dt = 1 := h.unit t
+  have hraw : (pushEntry s y).rawFrame = Frame.zero := by
+    unfold Sys.rawFrame
+    rw [hf]
+    simp only [r32_real]
+    rw [interpolateFrame_zero]
+    unfold Sys.nextFrame pushEntry
+    simp [h.empty]
+  unfold Sys.renderFrame
+  rw [stepPos_spec fuel _ (by show (0 : ℝ) ≤ (pushEntry s y).frac + (pushEntry s y).fracStep t dt; rw [hf, hstep]; norm_num)
+    (by show ⌊(pushEntry s y).frac + (pushEntry s y).fracStep t dt⌋₊ < fuel; rw [hf, hstep]; simp; omega)]
+  simp only []
+  have hk : ⌊(pushEntry s y).frac + (pushEntry s y).fracStep t dt⌋₊ = 1 := by rw [hf, hstep]; simp
+  rw [hk, hraw]
+  refine ⟨_, rfl, ?_, ?_⟩
+  · unfold Sys.checkEnd
+    have hre : (pushEntry s y).reachedEnd = false := h.notEnd
+    simp only [hre, Bool.false_and, Bool.false_eq_true, if_false]
+    exact { empty := by show List.drop 1 (s.ring.items ++ [y]) = []; rw [h.empty]; rfl
+            frac := by show (pushEntry s y).frac + (pushEntry s y).fracStep t dt - ((1 : ℕ) : ℝ) = 0; rw [hf, hstep]; norm_num
+            notEnd := rfl
+            unit := h.unit }
+  · intro t' f
+    unfold Sys.checkEnd
+    have hre : (pushEntry s y).reachedEnd = false := h.notEnd
+    simp only [hre, Bool.false_and, Bool.false_eq_true, if_false]
+    rfl
+
+theorem trickle_all_lost (fuel : Nat) (hfuel : 2 ≤ fuel) (t dt : ℝ) : ∀ (ys : List (TimestampedFrame ℝ)) (s : Sys σ ℝ),
+    Starved s dt → ∃ s', trickle fuel t dt ys s = .ok (s', List.replicate ys.length (s.shade t Frame.zero)) ∧
+      Starved s' dt := by
+  intro ys
+  induction ys with
+  | nil => intro s h; exact ⟨s, rfl, h⟩
+  | cons y ys ih =>
+    intro s h
+    obtain ⟨s1, h1, hs1, hsh⟩ := starved_frame fuel hfuel s t dt h y
+    obtain ⟨s2, h2, hs2⟩ := ih s1 hs1
+    refine ⟨s2, ?_, hs2⟩
+    rw [trickle, h1]
+    simp only [h2, hsh, List.length_cons, List.replicate_succ]
+
 end Streaming
 
 namespace DT
